@@ -382,6 +382,58 @@ fn raw_path(small: bool) -> impl Strategy<Value = Vec<u8>> {
     })
 }
 
+// ------------------------------------------------------------------ one-hop paths
+
+/// AS A issues a one-hop path, AS B completes it (before or after the SegID step of hop 1):
+/// the second hop field must be the one a reference AS B would have MACed.
+#[derive(Clone, Debug, Serialize, Deserialize)]
+struct OneHopCase {
+    seg_id: u16,
+    ts: u32,
+    exp: u8,
+    egress: u16,
+    ingress: u16,
+    key_a: [u8; 16],
+    key_b: [u8; 16],
+    /// the SegID step of hop 1 was applied before hop 2 is filled in (as the egress router does)
+    advanced: bool,
+    /// through the owned model instead of the view
+    model: bool,
+}
+
+fn check_onehop(c: &OneHopCase, obs: &mut Obs) -> CheckResult {
+    use sciparse::dataplane_path::onehop::{model::OneHopPath, view::OneHopPathView};
+    use sciparse::core::encode::WireEncode;
+    let mac1 = mac::hop_mac(&c.key_a, c.seg_id, c.ts, c.exp, 0, c.egress);
+    let beta1 = mac::beta_step(c.seg_id, &mac1);
+    let h0 = rw::RHop { flags: 0, exp: c.exp, ing: 0, eg: c.egress, mac: mac1 };
+    let zero = rw::RHop { flags: 0, exp: 0, ing: 0, eg: 0, mac: [0; 6] };
+    let info = rw::RInfo { flags: 1, rsv: 0, seg_id: if c.advanced { beta1 } else { c.seg_id }, ts: c.ts };
+    let mut bytes = vec![];
+    rw::enc_info(&info, &mut bytes);
+    rw::enc_hop(&h0, &mut bytes);
+    rw::enc_hop(&zero, &mut bytes);
+    let out: Vec<u8> = if c.model {
+        let mut m = OneHopPath::new_from_parts(sp::sut_info(&info), [sp::sut_hop(&h0), sp::sut_hop(&zero)]);
+        vcore::no_panic("OneHopPath::set_second_hop", || m.set_second_hop(c.ingress, c.key_b.into(), c.advanced))?;
+        m.try_encode_to_vec().map_err(|e| Fail::new("onehop-model-not-encodable", e.to_string()))?
+    } else {
+        let mut b = bytes.clone();
+        let (v, _) = OneHopPathView::try_from_mut_slice(&mut b).map_err(|e| Fail::new("onehop-view-rejected", e.to_string()))?;
+        vcore::no_panic("OneHopPathView::set_second_hop", || v.set_second_hop(c.ingress, c.key_b.into(), c.advanced))?;
+        b
+    };
+    let got = rw::dec_hop(&out[20..32]);
+    let want = rw::RHop { flags: 0, exp: c.exp, ing: c.ingress, eg: 0, mac: mac::hop_mac(&c.key_b, beta1, c.ts, c.exp, c.ingress, 0) };
+    let which = if c.model { "model" } else { "view" };
+    ensure!(got == want, format!("onehop-second-hop-not-authentic:{which}:{}", if c.advanced { "segid-advanced" } else { "segid-not-advanced" }), "second hop field {got:?}, a reference AS would issue {want:?} (beta after hop 1 = {beta1:#06x})");
+    ensure!(out[..20] == bytes[..20], "onehop-set-second-hop-changed-other-fields", "info field / first hop field changed");
+    ensure!(mac::verifies(&c.key_b, beta1, c.ts, &got), "onehop-second-hop-does-not-verify", "second hop does not verify at the completing AS");
+    obs.label(format!("onehop-{which}-{}", if c.advanced { "advanced" } else { "not-advanced" }));
+    obs.nontrivial(&(c.seg_id, c.ts, c.exp, c.egress, c.ingress, c.key_a, c.key_b, c.advanced, c.model));
+    Ok(())
+}
+
 fn run(ctx: &Ctx) {
     // (a) authentic paths: exhaustive over shapes (<=3 segments x <=3 hops, each direction, with/without peering)
     let mut shapes = vec![];
@@ -416,6 +468,10 @@ fn run(ctx: &Ctx) {
     ctx.run_prop("authentic-random", n, || auth_strategy(false), check_auth);
     ctx.run_prop("tampered-random", n, || auth_strategy(true), check_auth);
 
+    let n1 = ctx.tier.pick(40_000, 2_000_000);
+    ctx.run_prop("onehop-second-hop", n1, || (any::<u16>(), prop_oneof![Just(1_700_000_000u32), any::<u32>()], any::<u8>(), 1u16..=u16::MAX, 1u16..=u16::MAX, any::<[u8; 16]>(), any::<[u8; 16]>(), any::<bool>(), any::<bool>())
+        .prop_map(|(seg_id, ts, exp, egress, ingress, key_a, key_b, advanced, model)| OneHopCase { seg_id, ts, exp, egress, ingress, key_a, key_b, advanced, model }), check_onehop);
+
     // (b) arbitrary standard-path byte strings x arbitrary step sequences
     let n = ctx.tier.pick(400_000, 15_000_000);
     ctx.run_prop("steps-small-paths", n, || (raw_path(true), prop::collection::vec(0u8..9, 1..10), any::<[u8; 16]>()).prop_map(|(bytes, steps, key)| StepCase { bytes, steps, key }), check_steps);
@@ -436,6 +492,7 @@ fn main() {
         Sub { name: "tampered-small-shapes", run: |_| {}, replay: |c, v| c.replay_case::<AuthCase>("auth", v, check_auth) },
         Sub { name: "authentic-random", run: |_| {}, replay: |c, v| c.replay_case::<AuthCase>("auth", v, check_auth) },
         Sub { name: "tampered-random", run: |_| {}, replay: |c, v| c.replay_case::<AuthCase>("auth", v, check_auth) },
+        Sub { name: "onehop-second-hop", run: |_| {}, replay: |c, v| c.replay_case::<OneHopCase>("onehop", v, check_onehop) },
         Sub { name: "steps-small-paths", run: |_| {}, replay: |c, v| c.replay_case::<StepCase>("steps", v, check_steps) },
         Sub { name: "steps-large-paths", run: |_| {}, replay: |c, v| c.replay_case::<StepCase>("steps", v, check_steps) },
     ];
